@@ -129,7 +129,9 @@ func (v *printer) Printf(format string, args ...interface{}) {
 }
 
 func (v *printer) Println(args ...interface{}) {
-	if v.enab.Enabled(v.level) {
+	// Like the other Fatal methods, Fatalln must terminate even if the level
+	// is disabled, so only skip the formatting for levels that can't.
+	if v.level >= zapcore.DPanicLevel || v.enab.Enabled(v.level) {
 		v.print(sprintln(args))
 	}
 }
